@@ -3,8 +3,8 @@ EXTENDS JobMap, Json
 K2 == {"m1", "m2"}
 K3 == {"m1", "m2", "m3"}
 F1 == {"zz"}
-ScriptsQ == {<<"ok">>, <<"fail", "ok">>, <<"omit", "ok">>, <<"fail">>}
-ScriptsV == {<<"ok">>, <<"fail", "ok">>, <<"omit">>}
+ScriptsQ == {<<"ok">>, <<"fail", "ok">>, <<"omit", "ok">>, <<"fail">>, <<"ok", "fail">>, <<"ok", "omit">>}
+ScriptsV == {<<"ok">>, <<"fail", "ok">>, <<"omit">>, <<"ok", "fail">>}
 V2 == {1, 2}
 DevNone == {}
 DevReuseFailed == {"ReuseFailed"}
